@@ -92,6 +92,7 @@ class World:
     def _build(self, maxn, writers):
         rng, plan, reg = self.rng, self.plan, self.reg
         n = rng.randrange(1, maxn + 1)
+        to_add = []
         for i in range(n):
             r = rng.random()
             earlier = list(range(i))
@@ -112,7 +113,7 @@ class World:
                 m = dict(kind="lit", fn=0, litv=v, args=[], deps=deps, store=None, is_src=False)
                 if rng.random() < 0.25:
                     st = self._mkstore()
-                    reg.add(node, st)
+                    to_add.append((i, st))
                     m["store"] = st.sid
             else:
                 args = [rng.choice(earlier) for _ in range(rng.choice([0, 1, 1, 2, 2, 3]))] if earlier else []
@@ -120,13 +121,16 @@ class World:
                 m = dict(kind="call", fn=i + 1, litv=0, args=args, deps=deps, store=None, is_src=False)
                 if rng.random() < 0.55:
                     st = self._mkstore()
-                    reg.add(node, st)
+                    to_add.append((i, st))
                     m["store"] = st.sid
             for d in deps:
                 plan.add_dependency(self.nodes[d], node)
             self.nodes.append(node)
             self.meta.append(m)
         self.n = n
+        rng.shuffle(to_add)          # registry order is independent of plan order
+        for i, st in to_add:
+            reg.add(self.nodes[i], st)
         self.writer_of = {}
         self.tainted = False     # modified times made equal: outside the properties' distinct/increasing-times assumption
         if writers:
